@@ -27,7 +27,7 @@ ASSUMPTIONS = [
     "orientation is compared modulo 360 degrees, metadata by content after tuple/list normalisation",
 ]
 NOT_REACHED = ["records longer than 10000 samples in this check"]
-BUDGET = {"quick": dict(cases=1200, seconds=60, shards=4),
+BUDGET = {"quick": dict(cases=4000, seconds=60, shards=4),
           "thorough": dict(cases=300000, seconds=600, shards=16)}
 REQUIRED = ["mon:save-load-bit-exact", "mon:copies-share-no-storage", "mon:trim-keeps-nearest-samples",
             "mon:trim-refuses-outside-record", "mon:components-own-distinct-buffers", "mon:split-windows-independent"]
